@@ -138,6 +138,10 @@ class LiteralEvaluator:
 			True = 正常
 		"""
 		quotes = ['"', "'"]
+		# XXX 三重引用符の文字列は、引用符を1文字として扱う結合処理の対象外
+		if len(string) >= 6 and string[:3] == string[0] * 3:
+			return False
+
 		return len(string) >= 2 and string[0] in quotes and string[-1] in quotes
 	
 	def _cat(self, left: str, right: str) -> str:
